@@ -107,6 +107,11 @@ func concRun(r *hx.Rng, cfg, cfprocs, cfiters int, fast bool, lv *level, d *def,
 			ns := randMessage(r, lv)
 			if heavy {
 				ns = append(append(ns, randMessage(r, lv)...), randMessage(r, lv)...) // up to 9 occurrences of a nested field
+				if k >= 4 {
+					// ... the last one malformed INSIDE (the outer message stays well-formed): after a requested field, a key
+					// without value / a truncated varint
+					ns = append(ns, &node{num: 3, wt: 2, b: [][]byte{{0x08, 0x05, 0x10}, {0x12, 0x01, 0x41, 0x08, 0x85}}[k%2]})
+				}
 			}
 			in := encodeAll(ns)
 			if len(in) == 0 {
